@@ -10,6 +10,7 @@ package server
 
 import (
 	"fmt"
+	"net"
 	"os"
 	"regexp"
 	"sort"
@@ -17,6 +18,7 @@ import (
 	"testing"
 	"time"
 
+	"github.com/bio-routing/bio-rd/net/tcp"
 	"github.com/bio-routing/bio-rd/protocols/bgp/packet"
 	"github.com/bio-routing/bio-rd/route"
 	"github.com/bio-routing/bio-rd/routingtable"
@@ -161,6 +163,65 @@ func zvC26Scenarios() []zvScenario {
 			func() { s.cA.deliver(s.updateFor(zvR2)) },
 			func() {
 				s.cB.deliver(zvwUpdate(nil, []zvwAttr{zvwOrigin(0), zvwASPath(true), zvwNextHop(10, 0, 0, 8), zvwLocalPref(100)}, zvwNLRI([]zvwPrefix{zvRB2}, false)))
+			},
+		}
+	})
+	mkFrom := func(name string, reach []string, ops func(s *zvSess) []func()) {
+		sc = append(sc, zvScenario{name: name, timed: true, build: func() ([]func(), func()) {
+			vsched.SetExploring(false)
+			s := zvSessStart(zvSessCfg{Name: "c26", A: zvPeerOpts{Addr: 9, Hold: 90 * time.Second}})
+			for _, e := range reach {
+				s.apply(e)
+			}
+			vsched.SetExploring(true)
+			return ops(s), func() {}
+		}})
+	}
+	// the session layer's per-family state (Adj-RIBs created by init(), dropped by dispose()) against the configuration API
+	mkFrom("R6 policy replace (import, export)||notification (teardown)", []string{evT15, evOpen, evKA, evUpd1}, func(s *zvSess) []func() {
+		ip := zvPeerIP(s.cfg.A)
+		return []func(){
+			func() { s.w.srv.ReplaceImportFilterChain(s.w.vrf, ip, filter.NewDrainFilterChain()) },
+			func() { s.w.srv.ReplaceExportFilterChain(s.w.vrf, ip, filter.NewDrainFilterChain()) },
+			func() { s.cA.deliver(zvwNotification(6, 4)) },
+		}
+	})
+	mkFrom("R7 policy replace (import, export)||keepalive (establishment)", []string{evT15, evOpen}, func(s *zvSess) []func() {
+		ip := zvPeerIP(s.cfg.A)
+		return []func(){
+			func() { s.w.srv.ReplaceImportFilterChain(s.w.vrf, ip, filter.NewDrainFilterChain()) },
+			func() { s.w.srv.ReplaceExportFilterChain(s.w.vrf, ip, filter.NewDrainFilterChain()) },
+			func() { s.cA.deliver(zvwKeepalive()) },
+		}
+	})
+	mkFrom("R8 api rib readers||notification (teardown)", []string{evT15, evOpen, evKA, evUpd1}, func(s *zvSess) []func() {
+		ip := zvPeerIP(s.cfg.A)
+		return []func(){
+			func() {
+				if r := s.w.srv.GetRIBIn(s.w.vrf, ip, packet.AFIIPv4, packet.SAFIUnicast); r != nil {
+					r.Dump()
+				}
+			},
+			func() {
+				if r := s.w.srv.GetRIBOut(s.w.vrf, ip, packet.AFIIPv4, packet.SAFIUnicast); r != nil {
+					r.Dump()
+				}
+			},
+			func() { s.cA.deliver(zvwNotification(6, 4)) },
+		}
+	})
+	mkFrom("R9 policy replace||incoming connection||config read", []string{evT15}, func(s *zvSess) []func() {
+		ip := zvPeerIP(s.cfg.A)
+		return []func(){
+			func() { s.w.srv.ReplaceImportFilterChain(s.w.vrf, ip, filter.NewDrainFilterChain()) },
+			func() {
+				c := s.w.newConn(net.IPv4(10, 0, 0, s.cfg.A.Addr), "accept")
+				vsched.Send(s.w.lm.ch, tcp.ConnWithVRF{Conn: c, VRF: s.w.vrf})
+			},
+			func() {
+				if c := s.w.srv.GetPeerConfig(s.w.vrf, ip); c != nil && c.IPv4 != nil {
+					_ = c.IPv4.ImportFilterChain
+				}
 			},
 		}
 	})
